@@ -220,6 +220,9 @@ def build_program(stmts, inject_at, kind, mode, nested, opts=None):
         if e["type"] not in names:
             names.append(e["type"])
     obs_src = observer_flows(names, opts.get("obs_style", "direct"))
+    if mode == "launcher":
+        # "fails ONLY that flow": the launcher merely activated the faulty flow (it does not await it); it must still react afterwards
+        script.append({"type": "PingL"})
     src = []
     if opts.get("obs_first"):
         src += obs_src
@@ -234,7 +237,7 @@ def build_program(stmts, inject_at, kind, mode, nested, opts=None):
     if not opts.get("obs_first"):
         src += obs_src
     if mode == "launcher":
-        src += ["@active", "flow launcher", "  activate faulty", "  match NeverL()", ""]
+        src += ["@active", "flow launcher", "  activate faulty", "  match PingL()", "  send SeenPingL()", ""]
     src.append("flow main")
     if mode == "raw":
         src.append('  send StartFlow(flow_id="faulty")')  # incomplete internal event: the faulty flow is never started
@@ -334,7 +337,8 @@ def gen_cases(rng, tier):
             stmts[0] = ([f"match A0()"], [{"type": "A0"}], True, "match")
         # every position; the kinds rotate so that every (position, kind) pair is hit across programs (thorough: all kinds per position)
         for pos in range(n + 1):
-            ks = kinds if tier == "thorough" and p % 6 == 0 else [kinds[(p + pos) % len(kinds)], rng.choice(kinds)]
+            # (thorough: 35 full sweeps of all 33 kinds at every position -- as many (position, kind) pairs as the 70 sweeps of 20 kinds before)
+            ks = kinds if tier == "thorough" and p % 12 == 0 else [kinds[(p + pos) % len(kinds)], rng.choice(kinds)]
             for kind in dict.fromkeys(ks):
                 if mode == "launcher" and pos == 0:
                     continue  # the launcher itself would fail while starting (it is related to the faulty flow)
@@ -343,7 +347,7 @@ def gen_cases(rng, tier):
         # the same program with a longer history / other observers: error only in the K-th instance of the activated flow, the walk to
         # the error repeated after it, observers ahead of the faulty flow / reacting through a sub-flow (every position, rotating kinds)
         for pos in range(n + 1):
-            for kind in dict.fromkeys([kinds[(p * 7 + pos * 3 + 1) % len(kinds)], rng.choice(kinds)]):
+            for kind in dict.fromkeys([kinds[(p * 7 + pos * 3 + 1) % len(kinds)]] + ([rng.choice(kinds)] if tier == "quick" or p % 2 == 0 else [])):
                 opts = random_opts(rng, mode)
                 if mode == "launcher" and pos == 0 and opts.get("at_instance", 1) == 1:
                     continue
